@@ -918,6 +918,26 @@ pub fn run_c08(o: &crate::Opts) {
             }
         }
     }
+    // the destination already holds something RELATED to the new object file (object: 6 bytes
+    // `3000 1021 f025`): exactly it, it followed by more (the object of a longer earlier version of the
+    // program), a proper prefix of it, the same length with another last byte — with and without a
+    // failing write
+    if o.shard == 1 % o.nshards {
+        let src = "add r0 r0 #1\nhalt\n";
+        for pre in ["30001021f025", "30001021f025f025", "30001021f0251021f0250000", "30001021", "3000", "30001021f024", "31001021f025", "30001021f02500"] {
+            for variant in ["", "lnkrel:", "hard:", "nu8:"] {
+                for lim in [None, Some(0u64), Some(4), Some(6)] {
+                    let dest = format!("{}pre:{}", variant, pre);
+                    let obs = obs_c08(&dir, src, false, &dest, lim);
+                    if obs == "st=pid-missed" {
+                        continue;
+                    }
+                    *kinds.entry(format!("related-destination:{}", obs.split(' ').next().unwrap())).or_default() += 1;
+                    sink.put(&format!("S08 0 {} {} {}", hex(src.as_bytes()), dest, lim_tok(lim)), &obs);
+                }
+            }
+        }
+    }
     // the two defects found by modelling the file system: a stale link with the temporary file's
     // name pointing at the destination (with and without a failing write), and destination paths
     // around the limit of 40 symbolic links
